@@ -496,6 +496,9 @@ fn run_sylt(e: &Env, cwd: &Path, args: &[String], labels: &mut Labels) -> Result
     let left = PROC_TIMEOUT.saturating_sub(t0.elapsed()).max(Duration::from_secs(2));
     let stdout = rx_o.recv_timeout(left).map_err(|_| ())?;
     let stderr = rx_e.recv_timeout(left).map_err(|_| ())?;
+    if std::env::var_os("C20_TRACE").is_some() {
+        eprintln!("c20-trace {:>6} ms  {:?}  sylt {}", t0.elapsed().as_millis(), status.code(), args.join(" "));
+    }
     Ok(RunOut { code: status.code(), stdout, stderr })
 }
 
@@ -1185,7 +1188,9 @@ impl Check for C20 {
             }
             7 => {
                 let min = minimal_program(&c.class, c.uses_std);
-                if c.files.len() == 1 && c.files.get("/p/main.sy") == Some(&min) {
+                // strictly decreasing measure (the engine re-tries after every success)
+                let total: usize = c.files.values().map(|s| s.len()).sum();
+                if total <= min.len() {
                     return Step::Skip;
                 }
                 c.files.clear();
@@ -1219,7 +1224,11 @@ impl Check for C20 {
                         }
                         let mut out: Vec<&str> = lines[..i].to_vec();
                         out.extend_from_slice(&lines[j..]);
-                        c.files.insert(name.clone(), out.join("\n") + "\n");
+                        let text = if out.is_empty() { String::new() } else { out.join("\n") + "\n" };
+                        if text.len() >= src.len() {
+                            return Step::Skip;
+                        }
+                        c.files.insert(name.clone(), text);
                         return Step::Candidate(c);
                     }
                     k -= lines.len();
